@@ -46,7 +46,8 @@ class Doc:
         return self
 
 
-RANGES = ['^1.2.3', '~1.0.0', '>=1.0.0 <2.0.0', '1.x', '*', '1.2.3', '^0.2.3', '>=1.0.0', '1.0.0 - 2.0.0', '^1.0.0 || ^2.0.0', '2', '~0.0.1', '1.0.0-beta.1', 'latest', 'next', '<3']
+RANGES = ['^1.2.3', '~1.0.0', '>=1.0.0 <2.0.0', '1.x', '*', '1.2.3', '^0.2.3', '>=1.0.0', '1.0.0 - 2.0.0', '^1.0.0 || ^2.0.0', '2', '~0.0.1', '1.0.0-beta.1', 'latest', 'next', '<3',
+          '<=1.2.3', '>1.0.0', '<2.0.0', '=1.2.3', 'v1.2.3']
 NPM_NAMES = ['lodash', 'react', '@types/node', '@babel/core', 'left-pad', 'vue', 'express', '@scope/pkg', 'chalk', 'typescript', 'a', 'is-odd']
 NONREG_NPM = [('workspace:*', 'npm-nonregistry'), ('workspace:^', 'npm-nonregistry'), ('file:../local', 'npm-nonregistry'), ('link:../x', 'npm-nonregistry'),
               ('git+https://github.com/u/r.git#v1', 'npm-nonregistry'), ('https://example.com/x.tgz', 'npm-nonregistry'), ('github:user/repo#semver:^1', 'npm-nonregistry'),
@@ -336,7 +337,8 @@ def gen_cargo_toml(rnd):
                 out.w(ind + key + eq + rnd.choice(['{ path' + eq + '"../x" }', '{ path' + eq + '"../x", version' + eq + '"1.0" }', '{ workspace' + eq + 'true }',
                                                     '{ version' + eq + '"1.0", registry' + eq + '"mine" }', '{ git' + eq + '"https://github.com/x/y" }', '{ workspace' + eq + 'true, features' + eq + '["a"] }']))
             elif form < 0.86:
-                out.w(ind + key + rnd.choice(['.workspace' + eq + 'true', '.path' + eq + '"../y"', '.features' + eq + '["x"]']))
+                out.w(ind + key + rnd.choice(['.workspace' + eq + 'true', '.path' + eq + '"../y"', '.features' + eq + '["x"]', '.git' + eq + '"https://github.com/x/y"',
+                                              '.branch' + eq + '"main"', '.default-features' + eq + 'false', '.optional' + eq + 'true']))
             else:
                 subtables.append((name, req, cls | {'cargo-dependency-subtable'}))
                 continue
